@@ -21,6 +21,15 @@ CLAIMED = {
             "resolved program (all fault kinds x all I/O sites are covered because every site and every error edge is "
             "an obligation); the behaviour over whole fault sequences is not executed or modelled.",
             "DESIGN.md §4 C11"),
+    "C02": ("who-may-mutate census of the outbound queues + dominance/must-pass on mir_built + call-site wiring",
+            "Static analysis, structural clauses only: enqueue dominates the first write in publish and is await-free; "
+            "the retained list shrinks only in the ack removal (called only from the four ack arms with that packet's "
+            "identifier) and in clear() (only via the session reset on the session_present==false edge); send progress "
+            "is re-armed only on (re)connect or by the latch; flush completion marks the entry of the same kind and id "
+            "Sent; no order-breaking queue operation; re-arm is paired with the DUP patch. These are inductive "
+            "who-may-mutate facts that hold for histories of any length and every crash point because they quantify "
+            "over all call sites and paths; retransmission byte-identity and counting are not computed.",
+            "DESIGN.md §4 C02"),
 }
 
 NOT_APPLICABLE = {
